@@ -139,7 +139,8 @@ SPEC = dict(
         "rows sufficient (C04), and score / scan results depend only on the text once they are (C01/C02); the driver "
         "re-validates this on every calculate (fresh versus reused sequence) and reports a DIFF otherwise",
         "py_panic_only_from_core assumes core_total (the core never panics and its infallible operations return a "
-        "value); where lmcore observes a core panic on the same data, a PanicException is not counted against C17",
+        "value); a PanicException is always reported; where lmcore observes a core panic on the same data the "
+        "detail says `core-also-panics` (what is left of known finding F25: TfmPvalue on some finite matrices)",
         "dictionaries have distinct keys (Python); column objects with inconsistent __len__/__iter__ are not generated",
         "file objects: read(n) returning at most n bytes is equivalent to the concatenated bytes (C14 chunk independence)",
     ],
